@@ -1339,7 +1339,10 @@ class WOFF2FlavorData(WOFFFlavorData):
         self.transformedTables = set(transformedTables)
 
     def _decompress(self, rawData):
-        return brotli.decompress(rawData)
+        try:
+            return brotli.decompress(rawData)
+        except brotli.error as e:
+            raise TTLibError("can't decompress the metadata block: %s" % e)
 
 
 def unpackBase128(data):
